@@ -1,6 +1,7 @@
 """C06 output is a function of the input alone"""
 PID = "C06"
 THEOREM_FILE = "Properties/C06.v"
+EXTRA_THEOREM_FILES = ["Properties/C06reg.v"]
 NEEDS_KNUT = True
 
 RULE = ("tie-rich generated journals (few days, many same-day directives, duplicated transactions, several price paths) spread over "
@@ -9,18 +10,31 @@ RULE = ("tie-rich generated journals (few days, many same-day directives, duplic
         "and exit classes must be identical. C06.order: `knut print` is run 6 times in the same way (all runs identical), and its "
         "stdout must equal, byte for byte, the extracted model Source.print_tagged = Build with the source sort (build_sorted) + "
         "journal.Print, evaluated on the directives tagged with (path of their file, position) and handed over in REVERSED order. "
+        "C06.reg: `knut register --color=false` with a generated flag combination (window, interval, --last, -v, -c -d -a -s, "
+        "-m -r, --source --dest --commodity, --digits, -k) on a journal with few days, many same-day transactions and copies "
+        "that share (date, Dest, commodity) but differ in source or description, descriptions longer than 100 bytes, spread over an "
+        "include tree; run 6 times (all runs identical: stdout bytes and exit class) and the first run must equal, byte for byte, "
+        "the extracted model Register.register_text on the directives in source order (for the nil-Dest panic of a level-0 -m rule, "
+        "at most 5% of the cases: the exit class). "
         "Non-trivial: every C06.repeat case (the generator always produces same-day ties); a C06.order case when more than one file "
-        "holds directives; distinct by input.")
-TRUSTED_BASE = ["Coq 8.16.1 kernel", "extraction + drv_c05.ml (C06.repeat) + drv_c06.ml (C06.order) + drv_journal.ml (decoder)",
+        "holds directives; distinct by input; a C06.reg case when the table has at least two data rows or the run panics.")
+TRUSTED_BASE = ["Coq 8.16.1 kernel", "extraction + drv_c05.ml (C06.repeat) + drv_c06.ml (C06.order) + drv_c06reg.ml (C06.reg; parses nothing of knut's output) + drv_journal.ml (decoder)",
                 "harness c05.go (obsC06: repeated runs, include-tree writer) and c06.go (obsC06Order; layoutPath = the path under which "
-                "knut knows an included file)",
+                "knut knows an included file) and c06reg.go (obsC06Reg; RegCfg <-> argv)",
+                "register: Valuation is not part of the model's key (constant per run); a description cut inside a multi-byte "
+                "character (desc[:100]) is not generated (Model/Table.v counts runes of valid UTF-8 only); --color and --cpuprofile "
+                "are outside",
                 "Go scheduler and map seeds are sampled, not enumerated"]
 ASSUMPTIONS = ["float summation order in `portfolio weights` is outside this check (C20)"]
 TECHNIQUE = ("Coq: (A) journal.Builder on directives tagged with their source position, Build with the stable source sort of "
              "69e47a8 (Model/Source.v); a stable sort by a strict weak order is the unique solution of its contract and depends only on "
              "the per-class subsequences (Proofs/StableSort.v); Build = the builder of Model/Journal.v on the source-ordered sequence "
              "(Proofs/DeterminismProofs.v). (B) permutation invariance of every model function that stands for a Go map range "
-             "(Proofs/MapOrderProofs.v, InferOrder.v, PriceProofs.v). Check: repeated runs of the binary under varied GOMAXPROCS / "
+             "(Proofs/MapOrderProofs.v, InferOrder.v, PriceProofs.v). (C) `knut register`: an executable model of the command "
+             "(Model/Register.v) on the pipeline stages of Model/Pipeline.v; the report is one association list sorted by an "
+             "injective key encoding, so commuting insertions give Leibniz-equal reports and the generic fold-permutation lemma of "
+             "C05 applies with equality; the stage relations of Proofs/OrderPipeline.v are reused; the row comparison is a good_cmp "
+             "(Proofs/TxnOrder.v) and total on the keys of a node, so the stable sort is order-free (Proofs/StableSort.v). Check: repeated runs of the binary under varied GOMAXPROCS / "
              "schedule perturbation")
 LEVEL_TEXT = ("Theorems (Properties/C06.v, all closed under the global context). "
               "A, arrival order: C06_arrival -- for every permutation of the tagged directives (equal source position => equal "
@@ -41,26 +55,50 @@ LEVEL_TEXT = ("Theorems (Properties/C06.v, all closed under the global context).
               "rationals); C06_weight_order (weights are the same decimal); C06_sort_siblings, C06_sort_top (the sort with the name "
               "tie-break of bffd269 gives one list for every enumeration of the children map, and it is the model's list; "
               "C06_pinned_sort_refuted, F6); C06_infer_candidates; C06_weights_adds. "
+              "C, knut register (Properties/C06reg.v, model Model/Register.v tied byte for byte by C06.reg): "
+              "C06_register_order_irrelevant -- for every register and text configuration a journal and any permutation of it build the "
+              "same table and print the same bytes, or both fail (hypotheses of C05: parser-shaped accounts, no conflicting same-day "
+              "prices); C06_register_insert_commutes; C06_register_factor (flags, loader, a function of the journal: with C06_arrival "
+              "the arrival order of the files does not matter); C06_register_map_order -- the rows of a date are the same for every "
+              "enumeration of the node's map (repaired comparison of 4dc8b78: C06_register_cmp_good, C06_register_cmp_separates); "
+              "C06_register_map_order_pinned_refuted (the comparison of a319b05: two enumerations, two tables -- the defect found and "
+              "fixed); C06_register_total_partial -- without a level-0 -m rule the command returns bytes or an error, never a panic; "
+              "C06_register_report_total; C06_register_panic_class; C06_register_total_refuted (-m 0,<rx> hides the Dest account and "
+              "Render dereferences nil: an observation, register is not in C14's command list); C06_register_matches_balance -- for agreeing "
+              "configurations (same window, valuation, mapping, remap; --dest/--commodity = balance's --account/--commodity; no "
+              "--source; commodities shown; --close=false) the amounts shown in the register rows of a date, Dest and commodity sum "
+              "to the amount the balance report stores for that account, commodity and period end (the `balance --diff` cell), by "
+              "the posting-pair invariant with accounts (Proofs/PairAccounts.v); C06_register_rows_sum. "
               "Partial: the Go scheduler and map seeds are sampled by the check, not enumerated; for the Valuate/CloseAccounts loops "
               "byte equality of the final report is proved only through the totals (not through the renderer); which erroneous "
               "directive an error message names (stderr) is outside.")
 LEVEL_NOTE = ("Trusted: kernel, extraction, harness; Go runtime sampled. Outside the rational model: float64 summation order in "
               "`portfolio weights`/`returns` (the commands are run repeatedly by this check -- the tie-break defect of SortWeighted was "
-              "found that way and fixed in 68dd52f -- but their float arithmetic has no theorem).")
+              "found that way and fixed in 68dd52f -- but their float arithmetic has no theorem). `knut register`: C06_register_total holds only without level-0 rules "
+              "(_partial/_refuted); the error kinds are named in a comment, not proved exhaustive.")
 
 
 def plan(tier, seed):
     if tier == "quick":
-        return [("C06", seed, 200, []), ("C06order", seed, 80, []), ("C06imp", seed, 110, [])]
+        return [("C06", seed, 200, []), ("C06order", seed, 80, []), ("C06imp", seed, 110, []), ("C06reg", seed, 300, [])]
     return [("C06", seed + k, 1500, []) for k in range(4)] + [("C06order", seed + k, 600, []) for k in range(4)] + \
-        [("C06imp", seed + k, 1100, []) for k in range(4)]
+        [("C06imp", seed + k, 1100, []) for k in range(4)] + [("C06reg", seed + k, 2500, []) for k in range(4)]
 
 
 def search_plan(seed):
-    return [("C06", seed + 100, 400, []), ("C06order", seed + 100, 200, []), ("C06imp", seed + 100, 330, [])]
+    return [("C06", seed + 100, 400, []), ("C06order", seed + 100, 200, []), ("C06imp", seed + 100, 330, []), ("C06reg", seed + 100, 600, [])]
 
 
 def compare(c):
+    if c.op == "C06.reg":
+        # observed "<runs verdict> | <OK stdout | ERR | PANIC ..>": the binary's first run against Register.register_text;
+        # for a panic the classes are compared (model "PANIC", observed "PANIC <runtime message>")
+        parts = c.observed.split(" | ", 1)
+        if len(parts) != 2:
+            return False
+        if c.model == "PANIC":
+            return parts[1].startswith("PANIC")
+        return c.model == parts[1]
     if c.op == "C06.order":
         # observed "<runs verdict> | <OK stdout | ERR | PANIC ..>": the binary's print against build_sorted + print_journal
         parts = c.observed.split(" | ", 1)
@@ -68,7 +106,20 @@ def compare(c):
     return True
 
 
+def _reg_class(c):
+    parts = c.observed.split(" | ", 1)
+    o = parts[1] if len(parts) == 2 else ""
+    if o.startswith("OK "):
+        # data rows = lines that start with "| " minus the header
+        rows = o.count("\\n| ") + (1 if o.startswith("OK | ") else 0) - 1
+        return "OK-empty" if rows <= 0 else ("OK-1row" if rows == 1 else "OK")
+    return o.split(" ")[0] if o else "?"
+
+
 def nontrivial(c):
+    if c.op == "C06.reg":
+        # a table with at least two data rows, or the nil-Dest panic
+        return _reg_class(c) in ("OK", "PANIC")
     if c.op == "C06.order":
         # more than one file holds directives
         head = c.input.split(" | ")[0].split(" # ")
@@ -80,5 +131,7 @@ def distribution(cases):
     d = {}
     for c in cases:
         k = c.input.split(" ")[0]
+        if c.op == "C06.reg":
+            k = "register:" + _reg_class(c)
         d[k] = d.get(k, 0) + 1
     return d
